@@ -1,0 +1,37 @@
+// SPDX-FileCopyrightText: 2026 The Pion community <https://pion.ly>
+// SPDX-License-Identifier: MIT
+
+//go:build verif && !js
+
+package webrtc
+
+import "sync/atomic"
+
+// VerifOperations exposes the operations queue to the verification harness (C05).
+type VerifOperations struct {
+	ops  *operations
+	flag *atomic.Bool
+}
+
+// NewVerifOperations creates an operations queue; onNegotiationNeeded is called by the worker
+// when the update-on-empty-chain flag is set.
+func NewVerifOperations(onNegotiationNeeded func()) *VerifOperations {
+	flag := &atomic.Bool{}
+
+	return &VerifOperations{ops: newOperations(flag, onNegotiationNeeded), flag: flag}
+}
+
+// Enqueue forwards to operations.Enqueue.
+func (v *VerifOperations) Enqueue(fn func()) { v.ops.Enqueue(operation(fn)) }
+
+// Done forwards to operations.Done.
+func (v *VerifOperations) Done() { v.ops.Done() }
+
+// GracefulClose forwards to operations.GracefulClose.
+func (v *VerifOperations) GracefulClose() { v.ops.GracefulClose() }
+
+// IsEmpty forwards to operations.IsEmpty.
+func (v *VerifOperations) IsEmpty() bool { return v.ops.IsEmpty() }
+
+// SetFlag sets updateNegotiationNeededFlagOnEmptyChain.
+func (v *VerifOperations) SetFlag(b bool) { v.flag.Store(b) }
